@@ -507,6 +507,8 @@ def history(seed, n_ops=25, profile=None):
         return reobserve_history(seed)
     if profile == "perkey":
         return perkey_history(seed)
+    if profile == "perkeycut":
+        return perkey_history(seed, unsound_cutoffs=True)
     if profile == "rhsheights":
         return rhs_heights_history(seed)
     if isinstance(profile, str):
@@ -887,7 +889,7 @@ def expert_history(seed):
     return L
 
 
-def perkey_history(seed):
+def perkey_history(seed, unsound_cutoffs=False):
     """C16, scripted family: incr_mapi_ / incr_mapi_cutoff on a BTreeMap or an OrdMap with a per-key function
     that is a pure map of the value, a map2 with an outer variable, a bind on the value, a function ignoring its
     input, or one returning a shared pre-existing node; edits of the input map (insert, remove, change), writes
@@ -943,6 +945,12 @@ def perkey_history(seed):
     else:
         f = f"map 2 [] l1.0 ; map 1 [] l0.0 o{shared} ; ret l0.1"
     cut = rng.choice(["-", "-", "-", "eq", "never", "fn:0"])
+    if unsound_cutoffs:
+        # cutoffs that swallow changes between unequal values: the output then legitimately lags behind the input, so
+        # these histories are only compared between model and crate
+        cut = rng.choice(["fn:1", "fn:2", "boxed:1", "boxed:2", "always"])
+        if flavour in ("ignore", "shared"):
+            flavour, f = "map2", f"map 1 [] l1.0 o{o} ; ret l0.0"
     op = rng.choice(["permapi", "permapiom", "perfilter", "perfilterom"])
     out = node(f"{op} {inp} {cut} {{ [] {f} }}")
     down = out
